@@ -102,6 +102,7 @@ def one_case(ctx: Ctx, stream: str, i: int, ctx_len: int, force_pattern=None) ->
     enc = Encoder()
     esx = enc.op(e)
     enc.freeze()
+    ctx.in_domain(stream, i, esx, {'expr': sx(esx)[:3000]})
     reply = ctx.model.ask(['reduce', esx])
     status, red = safe(e.reduce)
     for p in planted:
@@ -131,6 +132,7 @@ def one_case(ctx: Ctx, stream: str, i: int, ctx_len: int, force_pattern=None) ->
         ctx.disagree(stream, i, f'model replied {sx(reply)[:200]}, implementation reduced fine', {'expr': sx(esx)[:3000]})
     else:
         real = enc.op(red)
+        ctx.in_domain(stream, i, real, {'expr': sx(esx)[:3000], 'reduced': sx(real)[:2000]})   # reduce() stays in the domain
         d = first_diff(reply[1], real)
         if d is not None:
             ctx.disagree(stream, i, f'form of reduce() differs at {d[0]}: model {d[1]!r:.200} impl {d[2]!r:.200}',
